@@ -226,10 +226,7 @@ Theorem C11_idempotent_document : forall p doc toks ins ts,
   prog_ok p = true -> comment_free p = true -> aprog_valid p = true ->
   lex doc = Some toks -> map tk toks = flatten p ++ [Eof] ->
   exists out, formatted_text doc ins ts = Done out /\ format_request out ins ts = Done None.
-Proof.
-  intros p doc toks ins ts H1 H2 H3 H4 H5.
-  destruct (format_document p doc toks ins ts H1 H2 H3 H4 H5) as (txt & toks' & E & _ & _ & N). exists txt. split; assumption.
-Qed.
+Proof. exact idempotent_document. Qed.
 Print Assumptions C11_idempotent_document.
 
 (* proc main() { if (a < 1) { x := 007; } else y := 0x0a; }  - the abstract program whose layouts c11_messy and c11_tidy are *)
